@@ -72,6 +72,8 @@ for nm, prm in {
     "arc-quarter": (0, 0, 5, 5, 0, 0, math.pi / 2), "arc-half": (1, 2, 5, 5, 0, 30, math.pi), "arc-full": (0, 0, 5, 5, 0, 0, 2 * math.pi),
     "arc-circ-neg": (3, -2, 2.5, 2.5, 0, 100, -4.0), "arc-circ-7": (0, 0, 4, 4, 0, 0, 7.0), "arc-zero": (0, 0, 5, 3, 20, 40, 0.0),
     "arc-tiny": (0, 0, 100, 60, 15, 10, 1e-3), "ell-quarter": (0, 0, 10, 5, 0, 0, math.pi / 2), "ell-30": (0, 0, 10, 5, 30, 20, 2.0),
+    # the same ellipses and extents from another start angle (what a length depends on besides radii and extent)
+    "ell-30-b": (0, 0, 10, 5, 30, 110, 2.0), "ell-quarter-b": (0, 0, 10, 5, 0, 90, math.pi / 2),
     "ell-90": (0, 0, 10, 5, 90, -45, 3.0), "ell-neg": (1, 1, 10, 5, 137, 200, -2.5), "ell-full": (0, 0, 10, 5, 30, 0, 2 * math.pi),
     "ell-7": (0, 0, 10, 5, 30, 0, -7.0), "ell-2turns": (0, 0, 6, 2, 0, 10, 4 * math.pi + 1), "ell-thin": (0, 0, 100, 1, 12.5, 5, 3.0),
     "ell-thin-full": (0, 0, 100, 1, 0, 0, 2 * math.pi), "ell-near-circ": (0, 0, 5, 5.000001, 0, 0, 2.0),
@@ -117,6 +119,7 @@ def make(svg, name, mag):
 class Segments(SubCheck):
     name = "segments"
     chunk = 4
+    crosstalk_k = (12, 24)     # expensive cases: the alphabet of after:segments is kept small, and fixed
 
     def __init__(self, svg, tier):
         self.svg = svg
@@ -126,6 +129,9 @@ class Segments(SubCheck):
 
     def size(self):
         return len(self.p)
+
+    def crosstalk_cases(self):
+        return [dict(curve=n, mag=1.0, error=1e-6) for n in ("ell-30", "ell-30-b", "ell-quarter", "ell-quarter-b")]
 
     def case(self, i):
         name, mag, err = self.p[i]
@@ -435,7 +441,9 @@ def refused_check(svg):
     for on, mk in objs.items():
         for an, at in attempts.items():
             sc.append(dict(name="%s.%s" % (on, an), fresh=mk, attempt=at, follow=follow))
-    return failsafe.Refused(svg, sc)
+    r = failsafe.Refused(svg, sc)
+    r.crosstalk_k = (8, 16)     # expensive cases: the alphabet of after:refused is kept small, and fixed
+    return r
 
 
 def build(tier, seed, svg):
